@@ -116,7 +116,7 @@ def props_assumptions(pid):
     rc, out = sh(f"timeout 600 coqc -Q . EG Props/{pid}.v", cwd=COQ, timeout=630)
     report = {}
     if rc != 0:
-        return names, 0, {"_error": out[-3000:]}
+        return names, 0, {"_error": out[-3000:], **{n: ["<not checked: theorem file does not compile>"] for n in names}}
     # split output into blocks: "Closed under the global context" or "Axioms:\n..."
     blocks = []
     cur = None
